@@ -36,6 +36,11 @@ Definition run_cmd (x : sexp) : sexp :=
       | Some e' => match Parse.core_check e' with (a, b, c) => ok (L [sx_bool a; sx_bool b; sx_bool c]) end
       | None => bad "decode-expr"
       end
+  | L [A "unparse-toks"; e] =>
+      match expr_of e with
+      | Some e' => ok (L (map Parse.sx_pt (Parse.norm (unparse_toks e'))))
+      | None => bad "decode-expr"
+      end
   | L [A "parse-core"; L ts] =>
       match mapM Parse.pt_of ts with
       | Some ts' => match Parse.parse_core ts' with Some e => ok (sx_expr e) | None => L [A "none"] end
